@@ -16,7 +16,7 @@ def quote_sel(sel):
     return urllib.parse.quote(sel.encode("utf-8", "surrogateescape"), safe="/")
 
 
-def build(proto, sel, search=None, layers=1, gplus="+", head=False, waptop="/wap"):
+def build(proto, sel, search=None, layers=1, gplus="+", head=False, waptop="/wap", literal_query=False):
     """Request bytes to fetch selector `sel` (a str, possibly with surrogate escapes).
     layers = number of percent-encoding layers for URL-based protocols (0 = raw)."""
     raw = sel.encode("utf-8", "surrogateescape")
@@ -47,7 +47,8 @@ def build(proto, sel, search=None, layers=1, gplus="+", head=False, waptop="/wap
     if proto == "gemini":
         q = b""
         if search is not None:
-            q = b"?" + urllib.parse.quote(search.encode("utf-8", "surrogateescape")).encode()
+            # a client may leave the query's sub-delimiters literal (RFC 3986): '+' is a plus sign in a Gemini query
+            q = b"?" + urllib.parse.quote(search.encode("utf-8", "surrogateescape"), safe="+&=!$'()*,;:@/?" if literal_query else "/").encode()
         return b"gemini://" + HOST.encode() + pb + q + b"\r\n"
     if proto == "spartan":
         body = b"" if search is None else search.encode("utf-8", "surrogateescape")
